@@ -222,23 +222,33 @@ where
     ) -> (Result<T, SingleflightError<E>>, bool) {
         // Get the call to use and a handle for retrieving the results
         let (call, created) = self.get_call_or_create(key).await;
+        #[cfg(xet_verif)]
+        crate::verif::yield_point("singleflight:after_get_call").await;
         let results_future = call.get_future();
+        #[cfg(xet_verif)]
+        crate::verif::yield_point("singleflight:after_get_future").await;
 
         if created {
             // spawn the owner task and wait
             let owner_task = OwnerTask::new(fut, call.clone());
             let owner_handle = Handle::current().spawn(owner_task);
+            #[cfg(xet_verif)]
+            crate::verif::yield_point("singleflight:after_spawn").await;
 
             // wait for the owner task and results to come back
             let (handle_result, future_result) = tokio::join!(owner_handle, results_future);
             let result = handle_result
                 .map_err(|e| SingleflightError::JoinError(e.to_string()))
                 .and(future_result);
+            #[cfg(xet_verif)]
+            crate::verif::yield_point("singleflight:before_remove").await;
 
             // since we created the call, remove it from the map
             if let Err(e) = self.remove_call(key).await {
                 return (Err(e), true);
             }
+            #[cfg(xet_verif)]
+            crate::verif::yield_point("singleflight:before_return").await;
             (result, true)
         } else {
             (results_future.await, false)
